@@ -886,6 +886,76 @@ func runC16(r *Run) {
 		}
 		r.Floor("R15", "answer fields with a native namesake", nFld, 20)
 	}
+	r.Rule("R16", "PATH.calldata-cannot-crash-the-node: (a) a count that the caller chooses and a keeper turns into an up-front allocation (the maxRetrieve of GetDelegatorValidators / GetDelegatorDelegations …: make([]T, maxRetrieve)) is compared with a bound before the call — 2^32−1 is a 1 TB allocation, a runtime fatal error that no recover catches, in DeliverTx and in eth_call alike; (b) precompile code decodes calldata strings with the error-returning decoders only — no sdk.Must…FromBech32: the native message answers a malformed or unusually spelled address with an error, a panic fails the whole transaction (and an upper-case validator address is *valid*)")
+	{
+		nMax, nMust := 0, 0
+		for _, fn := range P.Funcs {
+			if !strings.Contains(fnPkgPath(fn), "/precompiles/") || strings.Contains(fnPkgPath(fn), "/testutil") || isTestSupport(P, fn) || fn.Synthetic != "" {
+				continue
+			}
+			idx := 0
+			eachCall(fn, func(ci CallInfo) {
+				if strings.HasPrefix(ci.Name, "Must") && strings.Contains(ci.Name, "Bech32") {
+					nMust++
+					r.Bad("R16", fmt.Sprintf("%s#panicking-decoder-%s", fnID(fn), ci.Name), P.Pos(instrPos(ci.Instr)), "precompile code decodes an address with "+ci.Name+", which panics on input the error-returning decoder would reject (and HexAddressFromBech32String used to route the valid upper-case spelling of a validator address there): the transaction fails as an SDK panic where the native message succeeds or returns an error")
+				}
+				sig := ci.Instr.Common().Signature()
+				if sig == nil {
+					return
+				}
+				args := ci.Instr.Common().Args
+				off := 0
+				if ci.Instr.Common().IsInvoke() {
+					off = 0
+				} else if sig.Recv() != nil {
+					off = 1
+				}
+				for i := 0; i < sig.Params().Len(); i++ {
+					if sig.Params().At(i).Name() != "maxRetrieve" || i+off >= len(args) {
+						continue
+					}
+					a := args[i+off]
+					fromCalldata := false
+					backSlice(a).Any(func(v ssa.Value) bool {
+						if _, ok := v.(*ssa.TypeAssert); ok {
+							fromCalldata = true
+						}
+						if _, ok := v.(*ssa.Parameter); ok {
+							fromCalldata = true
+						}
+						return fromCalldata
+					})
+					if !fromCalldata {
+						continue
+					}
+					nMax++
+					idx++
+					bounded := false
+					av := stripValue(a)
+					for _, b := range fn.Blocks {
+						iff, ok := lastIf(b)
+						if !ok || b == ci.Instr.Block() || !dominates(b, ci.Instr.Block()) {
+							continue
+						}
+						if bo, ok := iff.Cond.(*ssa.BinOp); ok {
+							switch bo.Op {
+							case token.LSS, token.LEQ, token.GTR, token.GEQ:
+								if backSlice(bo.X).Has(av) || backSlice(bo.Y).Has(av) {
+									bounded = true
+								}
+							}
+						}
+					}
+					r.Check(bounded, "R16", fmt.Sprintf("%s#maxRetrieve-%d-bounded", fnID(fn), idx), P.Pos(instrPos(ci.Instr)), "an ordering comparison of the value dominates the call",
+						"a caller-chosen maxRetrieve is handed to "+ci.Name+" unchecked: the keeper allocates that many entries up front — claimRewards(owner, 2^32−1) makes every node exit with 'fatal error: out of memory' while executing the transaction")
+				}
+			})
+		}
+		if nMust == 0 {
+			r.OK("R16", "precompiles#no-panicking-bech32-decoder", "", "no sdk.Must…Bech32 call in precompile code")
+		}
+		r.Floor("R16", "caller-chosen maxRetrieve arguments in precompiles", nMax, 1)
+	}
 	// RunSetup
 	if rs, ok := P.FnOK("(precompiles/common.Precompile).RunSetup"); ok {
 		okMeter := false
